@@ -1017,6 +1017,16 @@ def build(env: Env, cfg: LoopCfg) -> Built:
             real = {"deadline_s": retry_kwargs["deadline_s"], "max_attempts": retry_kwargs["max_attempts"]}
             retry_kwargs["deadline_s"] = real["deadline_s"] * 50 + 100.0
             retry_kwargs["max_attempts"] = real["max_attempts"] + 7
+            # … and, for half of these, the per-class table, the UNKNOWN cap and the budget as well (the public
+            # attributes `_RetryState` reads on every failure; `RetryPolicy.__setattr__` must forward them)
+            more = bool(env.wall_seed_bits & (1 << 18))
+            if more:
+                for k in ("per_class_max_attempts", "max_unknown_attempts", "budget"):
+                    real[k] = retry_kwargs.get(k)
+                pc = retry_kwargs.get("per_class_max_attempts")
+                retry_kwargs["per_class_max_attempts"] = ({kk: v + 9 for kk, v in pc.items()} if pc else pc)
+                retry_kwargs["max_unknown_attempts"] = None
+                retry_kwargs["budget"] = None
             construct._inner = True
             try:
                 obj = construct(cls, with_hooks)
@@ -1026,6 +1036,10 @@ def build(env: Env, cfg: LoopCfg) -> Built:
             from datetime import timedelta as _td
             obj.deadline = _td(seconds=real["deadline_s"])
             obj.max_attempts = real["max_attempts"]
+            if more:
+                obj.per_class_max_attempts = dict(real["per_class_max_attempts"] or {})
+                obj.max_unknown_attempts = real["max_unknown_attempts"]
+                obj.budget = real["budget"]
             return obj
         hooks = hook_kwargs if with_hooks else {}
         if (env.wall_seed_bits & 64) and not any(v is not None for v in hooks.values()):
